@@ -117,7 +117,7 @@ func c03RawChain(r *Run) {
 		got := r.ValueUnder(fn, mk.Len, s)
 		r.Check("MerkleTreeLeafFromRawChain:count[len"+c.v+"3]", len(s) == 1 && got == c.want, r.Where(mk), "certificates parsed = "+got+" (want "+c.want+": the precert, its issuer and — for a precert-signing issuer — the final issuer)")
 	}
-	r.ExpectStores(fn, "MerkleTreeLeafFromRawChain:element", "&(make:[]*x509.Certificate(*)[(1 + it@*)])", "x509.ParseCertificate(p0[(1 + it@*)].Data)#0", 1)
+	r.ExpectStores(fn, "MerkleTreeLeafFromRawChain:element", "&(make:[]*x509.Certificate(*)[it@*])", "x509.ParseCertificate(p0[it@*].Data)#0", 1)
 	if c := r.OneCall(fn, "MerkleTreeLeafFromRawChain:delegate", "ct.MerkleTreeLeafFromChain"); c != nil {
 		r.Check("MerkleTreeLeafFromRawChain:delegate.chain", CallArgs(c)[0] == ssa.Value(mk), r.Where(c), "the parsed chain is what MerkleTreeLeafFromChain receives")
 		r.ExpectArg(c, "MerkleTreeLeafFromRawChain:delegate.type", 1, "p1")
@@ -158,7 +158,7 @@ func c03SCTListReader(r *Run) {
 					src = r.D.D(st.Val)
 				}
 			}
-			r.Check("ParseSCTsFromSCTList:in-order", glob("p0.SCTList[(1 + it@*)]", src), r.Where(ext[0]), "element i of the result is decoded from element i of the list: "+src)
+			r.Check("ParseSCTsFromSCTList:in-order", glob("p0.SCTList[it@*]", src), r.Where(ext[0]), "element i of the result is decoded from element i of the list: "+src)
 		} else {
 			r.Fail("ParseSCTsFromSCTList:shape", r.FnPos(fn), fmt.Sprintf("undecided: %d append / %d ExtractSCT sites", len(apps), len(ext)))
 		}
